@@ -72,6 +72,10 @@ type model struct {
 	// the server: a record outlives its ExpiresAt by the latency of the commands that
 	// follow the computation of the TTL (one for SET/SETNX, three for the CAS transaction)
 	LagWrite, LagCas time.Duration
+	// OwnStall: how long the calling goroutine has been stalled by the scheduler during the
+	// operation being judged (a slow thread is legal; its own slowness is added to every bound
+	// on how late the call may notice something)
+	OwnStall func() time.Duration
 	// number of comparisons that fell into a grace window
 	InWindow int
 	// LaxVersions: do not judge version strings (C06 is about existence only)
@@ -381,6 +385,13 @@ func (m *model) applyList(match func(string) bool, o *outcome, t0, t1 time.Time)
 	return ""
 }
 
+func (m *model) ownStall() time.Duration {
+	if m.OwnStall == nil {
+		return 0
+	}
+	return m.OwnStall()
+}
+
 // applyWait: a sequential WaitForVersionChange (C06: on an expired key).
 func (m *model) applyWait(key, ver string, o *outcome, t0, t1 time.Time) string {
 	// the record may expire during the wait: dead if dead at t1
@@ -405,8 +416,24 @@ func (m *model) applyWait(key, ver string, o *outcome, t0, t1 time.Time) string 
 	case "ctx":
 		// a polling backend may need its poll interval to notice; 250ms = 2.5 x the
 		// documented maximal interval
+		if own := m.ownStall(); l1 == 0 && own > 0 {
+			// the calling thread was stalled during the call: what counts is the time it had to
+			// notice the absence - since the call began or the record expired, less its own stall.
+			// When it had none before its context ended, the context's error is as true as ErrNotExist
+			since := t0
+			if r != nil && r.exp != nil && r.exp.After(t0) {
+				since = *r.exp
+			}
+			if t1.Sub(since)-own <= 250*time.Millisecond {
+				return ""
+			}
+		}
 		if l1 == 0 && (r == nil || r.exp == nil || t1.Sub(*r.exp) > 250*time.Millisecond) {
 			return fmt.Sprintf("WaitForVersionChange(%q) ran into its deadline although the key is absent/expired (expired %v before the call returned): an expired record must end the wait with ErrNotExist", key, expiredFor(r, t1))
+		}
+		if own := m.ownStall(); own > 0 && t1.Sub(t0)-own <= 250*time.Millisecond {
+			// stalled for (nearly) the whole call: its context ended before it got to look
+			return ""
 		}
 		if r != nil && (r.unbound || r.ver != ver) && l1 == 1 {
 			return fmt.Sprintf("WaitForVersionChange(%q) ran into its deadline although the version differs", key)
